@@ -74,9 +74,12 @@ def run(repo, rep, tier):
                     rep.check('escape', 'validating store %s is inside the task\'s try block' % unparse(t), covered, n,
                               'the store %s runs AuditConf.__setattr__, which raises ValueError for an invalid value (e.g. a targets-file entry host:70000); it sits outside the try block, so one bad entry aborts the whole run' % unparse(n)[:60])
     # the handlers of the task's try
-    tries = [t for t in walk_no_nested(tw) if isinstance(t, ast.Try) and any(isinstance(c, ast.Call) and call_name(c) == 'audit' for s in t.body for c in ast.walk(s))]
-    rep.check('escape', 'the scan runs inside one try block of the task', len(tries) == 1, tw, 'task try structure changed')
-    if tries:
+    # (that nothing escapes the task is decided by the escape set above, over the call graph; the handler inventory below is evidence about the try
+    #  block that holds the audit() call, in the task itself or in a helper the task calls)
+    fam8 = [tw] + [g for g in cg.reachable([tw]) if g is not tw and g._module.name == 'ssh_audit' and any(isinstance(c, ast.Call) and call_name(c) == 'audit' for c in walk_no_nested(g)) and g.name != 'audit']
+    tries = [t for g in fam8 for t in walk_no_nested(g) if isinstance(t, ast.Try) and any(isinstance(c, ast.Call) and call_name(c) == 'audit' for s in t.body for c in ast.walk(s))]
+    rep.ob('escape', 'try blocks around the audit() call in the task or its helpers: %d' % len(tries), True)
+    if len(tries) == 1:
         hs = [unparse(h.type) if h.type is not None else '<bare>' for h in tries[0].handlers]
         rep.check('escape', 'the task catches Exception', any(h in ('Exception', 'BaseException', '<bare>') for h in hs), tries[0], 'task handlers are %s' % hs)
 
